@@ -319,6 +319,8 @@ pub fn quire_lockstep<Q: QT>(steps: &[Step], perm: u64, l: &mut Local) -> Result
         expect_bits(&nm("Quire::to_posit vs to_posit"), &args, q1.to_posit().tb(), guard(|| q2.t_to_posit().tb()))?;
         // posit <- quire: From<&Q>, From<Q> (by value, via a bit copy), Quire::to_posit vs to_posit
         expect_bits(&nm("P::from(&Q) vs to_posit"), &args, q1.to_posit().tb(), guard(|| q1.conv_to().tb()))?;
+        // by value as well (`q.into()`): seeded C17-r4-m1 gave that impl its own body (hi + lo of into_two_posits)
+        expect_bits(&nm("P::from(Q) vs to_posit"), &args, q1.to_posit().tb(), guard(|| q1.conv_to_val().tb()))?;
         let rt = Q::t_from_image(i1).image();
         if rt != i1 {
             return Err(Viol::wrong_s(nm("Quire::from_bits(to_bits)"), &args, img_hex(&i1), img_hex(&rt)));
